@@ -235,6 +235,14 @@ func richSubtitles(r *fw.Rand) *astisub.Subtitles {
 			}
 			it.Lines = append(it.Lines, line)
 		}
+		if r.P(1, 6) {
+			// a line without any run (an empty row kept for the layout), before, between or after the others
+			at := r.Intn(len(it.Lines) + 1)
+			it.Lines = append(it.Lines[:at], append([]astisub.Line{{}}, it.Lines[at:]...)...)
+			if r.Bool() {
+				it.Lines = append(it.Lines, astisub.Line{Items: []astisub.LineItem{{Text: "after"}}})
+			}
+		}
 		s.Items = append(s.Items, it)
 	}
 	if r.P(1, 4) {
